@@ -24,7 +24,7 @@ class C40(EngineDCheck):
     assumptions = ['a complete execution is one after which every actor has terminated; executions whose printed path was '
                    'truncated by the checker (%.100s) make the program unjudged',
                    'equivalence uses the dependency relation as evaluated on the transitions of each execution']
-    budgets = {'quick': dict(runs=40, wall=55), 'thorough': dict(runs=1000, wall=900)}
+    budgets = {'quick': dict(runs=40, wall=45), 'thorough': dict(runs=1000, wall=900)}
 
     def gen(self, seed, tier):
         r = Rng(seed, 'c40')
@@ -55,10 +55,12 @@ class C40(EngineDCheck):
         counts = {}
         none_classes = None
         nreplayed = 0
+        for r in mcs:
+            r['tag'] = ('_befs' if r['algo'] == 'BeFS' else '') + ('_uniform' if r['strategy'] == 'uniform' else '')
         if judged:
             for r in mcs:
                 if r['optimality_dup']:
-                    viol.append(('odpor_dup_own', '%s: the checker\'s own debug-optimality verification aborted: %s' %
+                    viol.append(('odpor_dup_own' + r['tag'], '%s: the checker\'s own debug-optimality verification aborted: %s' %
                                  (r['config'], ' | '.join(c for c in r['criticals'] if 'sequence' in c or 'equivalent' in c)[:400])))
                 elif not r['finished']:
                     if r['looping']:
@@ -95,7 +97,7 @@ class C40(EngineDCheck):
                 seen = {}
                 for f, p in per[i]:
                     if f in seen and r['red'] == 'odpor':
-                        viol.append(('odpor_dup', '%s explored two equivalent complete executions: %s and %s have the same '
+                        viol.append(('odpor_dup' + r['tag'], '%s explored two equivalent complete executions: %s and %s have the same '
                                      'Foata normal form under the checker\'s dependency relation (%d levels)' %
                                      (r['config'], seen[f], p, len(f))))
                     seen.setdefault(f, p)
@@ -110,7 +112,7 @@ class C40(EngineDCheck):
                     if n_exec != len(none_classes):
                         extra = [p for f, p in classes[i].items() if f not in none_classes]
                         miss = [p for f, p in none_classes.items() if f not in classes[i]]
-                        viol.append(('odpor_count', '%s explored %d complete executions (%d classes); the %d complete '
+                        viol.append(('odpor_count' + r['tag'], '%s explored %d complete executions (%d classes); the %d complete '
                                      'executions found without reduction fall into %d classes%s%s' %
                                      (r['config'], n_exec, len(classes[i]), len(per[0]), len(none_classes),
                                       ('; a class never explored by odpor: ' + miss[0]) if miss else '',
